@@ -147,12 +147,12 @@ open Atree.Health
 
 variable {β : Type}
 
-theorem runS_cache (c : Codec SSlab β) (T : Nat) :
+theorem runS_cache_h (c : Codec SSlab β) (T : Nat) :
     ∀ (ops : List AOp) (x : (Arr × Ctx) × St SSlab β), (runS c T x ops).2.cache = x.2.cache
   | [], _ => rfl
   | op :: ops, x => by
     show (runS c T (stepS c T x op) ops).2.cache = x.2.cache
-    rw [runS_cache c T ops]
+    rw [runS_cache_h c T ops]
     exact (applyEffs_frame c x.2 _ _).1
 
 /-- From any state of a run (`Good`, `RefsUnique`) whose storage has all slabs loaded and holds
@@ -212,7 +212,7 @@ theorem array_history_storage_check (c : Codec SSlab β) (hc : RoundTrip c) (T :
     exact (applyEffs_frame c St.init _ _).2
   have hcache : x.2.cache = [] := by
     show (runS c T (newS c addr ty) ops).2.cache = []
-    rw [runS_cache c T ops]
+    rw [runS_cache_h c T ops]
     exact (applyEffs_frame c St.init _ _).1
   have hall : AllLoaded x.2 := by
     intro id hid
